@@ -30,7 +30,7 @@ def install(eng):
     # ---- nested inputs/outputs values
     Tree = z3.Datatype("Tree")
     TreeList = z3.Datatype("TreeList")
-    RawPath = z3.DeclareSort("RawPath")
+    RawPath = vc.Path.sort()          # a leaf holds a path text (str or path object); same abstract sort as paths
     Tree.declare("leaf", ("raw", RawPath))
     Tree.declare("lst", ("lkids", TreeList))
     Tree.declare("dct", ("dkids", TreeList))
@@ -40,7 +40,7 @@ def install(eng):
     vc.TreeS, vc.TreeListS, vc.RawPathS = Tree, TreeList, RawPath
     vc.Tree = T.DataT("Tree", Tree)
     vc.TreeList = T.DataT("TreeList", TreeList)
-    vc.RawPath = T.Atom("RawPath")
+    vc.RawPath = vc.Path
     nleaves = z3.RecFunction("nleaves", Tree, z3.IntSort())
     nleavesL = z3.RecFunction("nleavesL", TreeList, z3.IntSort())
     tr, tl = z3.Const("tr", Tree), z3.Const("tl", TreeList)
@@ -49,6 +49,19 @@ def install(eng):
     z3.RecAddDefinition(nleavesL, [tl], z3.If(TreeList.is_tnil(tl), z3.IntVal(0),
                                               nleaves(TreeList.thead(tl)) + nleavesL(TreeList.ttail(tl))))
     vc.nleaves, vc.nleavesL = nleaves, nleavesL
+    # membership of a path among the leaves (recursive over the datatype)
+    # uninterpreted + unfolding axioms (group `leaves`): opaque wherever only "some leaf" matters
+    inl = z3.Function("in_leaves", Tree, RawPath, z3.BoolSort())
+    inlL = z3.Function("in_leavesL", TreeList, RawPath, z3.BoolSort())
+    rp = z3.Const("rp", RawPath)
+    eng.axiom("leaves", z3.ForAll([tr, rp], inl(tr, rp) == z3.If(Tree.is_leaf(tr), Tree.raw(tr) == rp,
+                                  z3.If(Tree.is_lst(tr), inlL(Tree.lkids(tr), rp), inlL(Tree.dkids(tr), rp))),
+                                  patterns=[inl(tr, rp)]))
+    eng.axiom("leaves", z3.ForAll([tl, rp], inlL(tl, rp) == z3.If(TreeList.is_tnil(tl), z3.BoolVal(False),
+                                  z3.Or(inl(TreeList.thead(tl), rp), inlL(TreeList.ttail(tl), rp))),
+                                  patterns=[inlL(tl, rp)]))
+    vc.in_leaves, vc.in_leavesL = inl, inlL
+    vc.f_pathlike = z3.Function("is_pathlike", RawPath, z3.BoolSort())     # the leaf is an os.PathLike object, not a str
 
     def tree_truthy(eng_, v):
         # leaf: a validated non-empty str or a PathLike object (truthy); list / dict: non-empty
@@ -62,7 +75,11 @@ def install(eng):
 
     @eng.fn("nleaves")
     def _nleaves(e, st, t):
-        return V(T.INT, nleaves(t.z))
+        return V(T.INT, nleaves(t.z) if t.ty.name == "Tree" else nleavesL(t.z))
+
+    @eng.fn("InLeaves")
+    def _inleaves(e, st, t, p_):
+        return V(T.BOOL, inl(t.z, p_.z) if t.ty.name == "Tree" else inlL(t.z, p_.z))
 
     # ---- declared file sets (DESIGN 3): Outs/Ins/Prot are the Canon-images of the leaves
     PS = T.SetT(vc.Path)
@@ -472,3 +489,56 @@ def install(eng):
     eng.contract("iface:File.write", self_type=vc.File, params={"self": vc.File, "data": vc.Bytes}, trusted=True,
                  modifies=["ghost:file_bytes"], ensures=["file_bytes == store(old(file_bytes), self.path, data)"],
                  note="a single write of the whole buffer to a freshly truncated file (partial writes by the OS out of scope)")
+
+    # ---- definition of the declared file sets (DESIGN 3): the Canon-image of the leaves
+    t_ = vc.Target.fresh("t")
+    q_, l_ = vc.Path.fresh("q"), vc.Path.fresh("l")
+    wd_of = eng.const_fn("Target", "working_dir", vc.Path)
+    for f_set, field in ((vc.f_Outs, "outputs"), (vc.f_Ins, "inputs"), (vc.f_Prot, "protect")):
+        tree_of = eng.const_fn("Target", field, vc.Tree)
+        eng.axiom("filesets", z3.ForAll([t_, q_], z3.Select(f_set(t_), q_) == z3.Exists(
+            [l_], z3.And(vc.in_leaves(tree_of(t_), l_), q_ == vc.f_abspath(vc.f_join(wd_of(t_), l_))))))
+
+    # ================================================================== iterating nested path values (for _flatten)
+    TreeS, TLS = vc.TreeS, vc.TreeListS
+
+    class KidsT(T.Ty):
+        """children of a list / dict value, iterated in order (cons-list: suffix iteration rule)"""
+        def __init__(self, name, items):
+            self.name, self.items = name, items
+        def sort(self):
+            return TLS
+        def py_suffix_iter(self, e, coll):
+            keyty = T.Atom("DictKey")
+            def elem(e_, h, st):
+                tv = V(vc.Tree, h)
+                return e_.mk_tuple([V(keyty, keyty.fresh("key")), tv]) if self.items else tv
+            return vc.TreeList, TLS.is_tnil, TLS.thead, TLS.ttail, elem
+
+    vc.KidsT = KidsT("TreeKids", False)
+    vc.KidItemsT = KidsT("TreeKidItems", True)
+
+    def tree_iter(e, n, st, v, sink):     # `for v in g` on a nested value: its children (a leaf str would iterate characters)
+        raise NotImplementedError
+
+    # `for v in g` / `g.items()` on a Tree value
+    eng.method_rules[("Tree", "items")] = lambda e, bb, a, kw, st, sink, n: iter([(st, V(vc.KidItemsT, TreeS.dkids(bb.recv.z)))])
+
+    class TreeIter:
+        pass
+
+    def tree_suffix(self_ty, e, coll):
+        return vc.KidsT.py_suffix_iter(e, V(vc.KidsT, TreeS.lkids(coll.z)))
+
+    # a Tree used directly as an iterable: only list-like values reach that code (`else` branch of flatten_rec)
+    vc.Tree.py_suffix_iter = lambda e, coll: (vc.TreeList, TLS.is_tnil, TLS.thead, TLS.ttail,
+                                              (lambda e_, h, st: V(vc.Tree, h)))
+    vc.Tree.py_suffix_start = lambda coll: TreeS.lkids(coll.z)
+    _orig_for_suffix_tree = True
+    import collections.abc
+    eng.isinstance_hooks["Tree"] = lambda e, x, classes, st, n: V(T.BOOL, z3.Or(*(
+        [z3.And(TreeS.is_leaf(x.z), z3.Not(vc.f_pathlike(TreeS.raw(x.z))))] if any(c is str for c in classes) else []) + (
+        [TreeS.is_dct(x.z)] if any(c in (collections.abc.Mapping, dict) for c in classes) else []) + [z3.BoolVal(False)]))
+    eng.hasattr_hooks["Tree"] = lambda e, x, nm, st, n: V(T.BOOL, z3.And(TreeS.is_leaf(x.z), vc.f_pathlike(TreeS.raw(x.z)))
+                                                          if nm == "__fspath__" else z3.BoolVal(False))
+    eng.coerce_hooks[("Tree", vc.Path.name)] = lambda e, v: V(vc.Path, TreeS.raw(v.z))    # appending a leaf value
